@@ -109,6 +109,42 @@ func (c17) Cases(tier string, emit func(string, interface{})) {
 		other := &gen.App{Name: []string{"Other"}, Types: []*gen.TypeDecl{{Kind: "type", Name: "U", Fields: []*gen.Field{{Name: "z", T: gen.TypeExpr{Prim: "int"}}}}}}
 		emit("payload3", c09Case{Spec: &gen.Spec{Apps: []*gen.App{mk("Ns", "B"), mk("A"), mk("Zed"), other}}, Lab: fmt.Sprintf("payload3-%d", i)})
 	}
+	// parameters carrying one, two and three tags in every order (the first declared tag is the
+	// parameter's location)
+	{
+		tagPool := []string{"header", "body", "deprecated", "audited", "zed"}
+		var prms []*gen.Param
+		n := 0
+		mkp := func(tags ...string) {
+			var as []gen.Attr
+			for _, t := range tags {
+				as = append(as, gen.Attr{Key: t, Tag: true})
+			}
+			prms = append(prms, &gen.Param{Name: fmt.Sprintf("p%d", n), T: gen.TypeExpr{Prim: "string"}, Attrs: as})
+			n++
+		}
+		for _, t1 := range tagPool {
+			mkp(t1)
+			for _, t2 := range tagPool {
+				if t1 != t2 {
+					mkp(t1, t2)
+					mkp(t1, t2, "mid")
+				}
+			}
+		}
+		for i := 0; i < len(prms); i += 9 {
+			j := i + 9
+			if j > len(prms) {
+				j = len(prms)
+			}
+			a := &gen.App{Name: []string{"Ns", "P"}, Eps: []*gen.Endpoint{
+				{Kind: "simple", Name: "Ep", Params: prms[i:j], Stmts: []*gen.Stmt{{Kind: "action", Text: "x"}}},
+				{Kind: "rest", Method: "POST", Path: []gen.PathSeg{{Static: "r"}}, Params: prms[i:j], Stmts: []*gen.Stmt{{Kind: "action", Text: "x"}}},
+				{Kind: "event", Name: "Ev", Params: prms[i:j], Stmts: []*gen.Stmt{{Kind: "action", Text: "x"}}},
+			}}
+			emit("paramtags", c09Case{Spec: &gen.Spec{Apps: []*gen.App{a}}, Lab: fmt.Sprintf("paramtags-%d", i)})
+		}
+	}
 	for _, p := range ps {
 		a := &gen.App{Name: []string{"A"}, Types: []*gen.TypeDecl{{Kind: "type", Name: "T", Fields: []*gen.Field{{Name: "f", T: gen.TypeExpr{Prim: "int"}}}}}, Eps: []*gen.Endpoint{{Kind: "simple", Name: "Ep", Stmts: []*gen.Stmt{{Kind: "ret", Text: p}}}}}
 		emit("payload1", c09Case{Spec: &gen.Spec{Apps: []*gen.App{a}}, Lab: "payload " + p})
